@@ -53,7 +53,8 @@ def cases(tier, seed):
     for i in range(40 if tier == 'quick' else 1500):
         k = rnd.choice([1, 2, 3, 10, 40])
         yield dict(retry=True, calls=[('scu', list(range(k)))], ts=rnd.choice([1, 2, 3]),
-                   maxlen=rnd.choice([0, 16384]), pattern=None, seed=seed * 100049 + i)
+                   maxlen=rnd.choice([0, 16384]), pattern=None, seed=seed * 100049 + i,
+                   late_conf=rnd.choice([0, 0, 1, 3]))
     # several short-lived entities one after the other (the library's own convenience wrappers
     # create one per operation): each request is built from the entity that makes it
     for i in range(60 if tier == 'quick' else 3000):
@@ -120,6 +121,14 @@ def _retry_case(case):
         def user():
             rq = asceprovider.AssociationRequester(ae, ae.max_pdu_length, {
                 'aet': 'REMOTE_AE', 'address': ADDR[0], 'port': ADDR[1]})
+            if case.get('late_conf'):
+                # the entity is given more to do after this requester was made for it (another
+                # thread, or a requester that is kept for later): whichever configuration the
+                # request then reflects, request and reply are read against the same one
+                def service2(asce, ctx, *a):
+                    return ('service', ctx)
+                service2.sop_classes = [_uid(500 + c) for c in range(case['late_conf'])]
+                ae.add_scu(service2)
             try:
                 try:
                     rq.request()
@@ -157,7 +166,7 @@ def _retry_case(case):
         for name, rq_ in (('first', first), ('second', second)):
             abss = sorted(c[1] for c in rq_['contexts'])
             ids = [c[0] for c in rq_['contexts']]
-            if abss != sorted(classes):
+            if abss != sorted(classes) and not case.get('late_conf'):
                 v('classes-not-proposed-exactly-once attempt=%s' % name,
                   'configured %d classes, proposed %r' % (len(classes), abss[:6]))
             if len(set(ids)) != len(ids) or any(i % 2 == 0 or not 1 <= i <= 255 for i in ids):
